@@ -175,8 +175,8 @@ static std::string direct_oracle(const SpaceGroup& sg, Lcg& rng, int natoms, boo
 }
 
 template<typename Table>
-static std::string fft_oracle(const SpaceGroup& sg, Lcg& rng, int natoms, bool aniso) {
-  Structure st = make_structure(sg, rng, natoms, aniso, false, 1.6);
+static std::string fft_oracle(const SpaceGroup& sg, Lcg& rng, int natoms, bool aniso, double scale) {
+  Structure st = make_structure(sg, rng, natoms, aniso, false, scale);
   // the FFT route assumes occupancies of atoms on special positions are already reduced; avoid overlap
   // of an atom with its own images changing nothing: both routes sum over all images identically.
   GroupOps gops = sg.operations();
@@ -311,9 +311,14 @@ static std::string handle(const std::string& cmd, const std::string& args) {
   }
   if (cmd == "o_fft") {
     int natoms = (int) to_ll(w.at(2)); bool aniso = to_ll(w.at(3)) != 0; int table = (int) to_ll(w.at(4));
-    if (table == 0) return fft_oracle<IT92<float>>(sg, rng, natoms, aniso);
-    if (table == 1) return fft_oracle<C4322<float>>(sg, rng, natoms, aniso);
-    return fft_oracle<Neutron92<float>>(sg, rng, natoms, aniso);
+    // optional 6th argument: cell scale x 100 (default 1.6; below ~0.7 an atom's density reaches past half a cell edge)
+    double scale = w.size() > 5 ? to_ll(w.at(5)) / 100.0 : 1.6;
+    // small cells only with few operations: dozens of overlapping images of each atom in a 5 A cell make nearly all
+    // structure factors vanish, and the R factor (a ratio to their sum) ill-conditioned
+    if (scale < 1.0 && sg.operations().order() > 8) return "skip";
+    if (table == 0) return fft_oracle<IT92<float>>(sg, rng, natoms, aniso, scale);
+    if (table == 1) return fft_oracle<C4322<float>>(sg, rng, natoms, aniso, scale);
+    return fft_oracle<Neutron92<float>>(sg, rng, natoms, aniso, scale);
   }
   if (cmd == "o_charge") {
     // two ions of one element with different tabulated charges: the form factor of each must be its own
